@@ -2182,6 +2182,11 @@ impl Archive {
 
         self.check_stored_extent(&file_info, &file_info.filename)?;
 
+        // A zero-length file has no stored units (same rule as in read_file)
+        if actual_file_size == 0 {
+            return Ok(Vec::new());
+        }
+
         // Read the file data
         self.reader.seek(SeekFrom::Start(file_info.file_pos))?;
 
@@ -2201,7 +2206,11 @@ impl Archive {
             }
 
             // Handle compression for single unit files
-            if file_info.is_compressed() {
+            if file_info.is_compressed() && data.len() as u64 == actual_file_size {
+                // Stored size equals file size: the writer kept the plain bytes because
+                // compression did not pay off; there is no method byte (same rule as in read_file)
+                Ok(data)
+            } else if file_info.is_compressed() {
                 if data.is_empty() {
                     return Err(Error::compression("File data is empty"));
                 }
